@@ -33,7 +33,8 @@ CHECKS = {
  "C17": ("model_checking", "4.C17",
          "the row splitter under LF/CRLF/trailing blanks is an invariant of the model (TLC, all small grids); for "
          "the code, EOL/trailing-blank variants with and without legend are recorded and TLC checks EolVariant of "
-         "the inputs and SameDoc (elements, canvas, style text).",
+         "the inputs and SameDoc (elements, canvas, style text); the whole-conversion model (Stages!FullDoc) is run on "
+         "the variants themselves and compared with the code (drift).",
          "TLA+ model checking of the row splitter + relational trace validation"),
  "C12": ("model_checking", "4.C12",
          "RefCanvas and Contained are invariants of the pipeline model on all small grids, on the neighbourhood "
@@ -41,7 +42,8 @@ CHECKS = {
          "tables) and on the whole-conversion model MC_Full (legend grammar, rows, unquote, quoted texts, canvas); all "
          "behaviours are replayed (elements, canvas and rules compared) and stage-validated; the predicates are "
          "evaluated by the trace specification on every recorded document of a corpus with wide characters, quoted "
-         "text at the edges, legends and several scales. One recorded finding (quoted text invisible to the canvas).",
+         "text at the edges, legends and several scales; the whole-conversion model is also run forwards on this corpus "
+         "and on the bundled examples (MC_FullOf) and compared with the code. One recorded finding (quoted text invisible to the canvas).",
          "TLA+ model checking (pipeline, neighbourhood family, whole-conversion model) + TLC replay + trace validation"),
  "C09": ("model_checking", "4.C09",
          "merge fixpoint and NoCollinearTouching are invariants of the pipeline model on all small grids (TLC); "
@@ -56,7 +58,8 @@ CHECKS = {
  "C15": ("model_checking", "4.C15",
          "TLC checks on all short rows that the code's blanking mechanism equals the reference and keeps every "
          "outside character in its display column; for the code, (quoted, blanked) input pairs are recorded and "
-         "TLC checks the input relation and elements(a) = elements(b) + the verbatim quoted texts.",
+         "TLC checks the input relation and elements(a) = elements(b) + the verbatim quoted texts; the whole-conversion "
+         "model is run on the quoted inputs and compared with the code (drift).",
          "TLA+ model checking of the unquote stage + relational trace validation"),
  "C08": ("model_checking", "4.C08",
          "TLC checks the sink model (escaping function) for every string over one representative per character "
@@ -87,8 +90,10 @@ CHECKS = {
          "TLA+ model checking of the arrow/bullet glyph rules + TLC replay + trace validation against integer-geometry oracles"),
  "C16": ("model_checking", "4.C16",
          "TLC checks the enclosure model (deepest-first forest, scale-invariant fit) for all scenes of the family; "
-         "legend and tag families are converted and TLC checks the input relation and RefLegend / RefTagClasses on "
-         "the recorded documents.",
+         "the enclosure stage inside the whole-conversion model for every interior row of a box and of two nested boxes "
+         "over a tag alphabet (MC_Tags, replayed with class names compared); legend and tag families are converted and "
+         "TLC checks the input relation and RefLegend / RefTagClasses on the recorded documents; the whole-conversion "
+         "model is run on those families and compared with the code.",
          "TLA+ model checking of the enclosure stage + trace validation (legend and tag oracles)"),
  "C18": ("model_checking", "4.C18",
          "TLC checks the Assemble model (order, switch independence, override); for the code every variant "
